@@ -3,7 +3,7 @@ CONSTANTS
   Script <- ScriptB
   Names = {"a", "b", "c"}
   MaxCliOps = 12
-  FaultKinds = {"garbage", "oversize", "trunc", "closein", "waitabort"}
+  FaultKinds = {"garbage", "oversize", "trunc", "closein", "waitabort", "closeout"}
   AllowZZ = TRUE
   AllowEarly = TRUE
   AnyName = FALSE
